@@ -90,6 +90,8 @@ EQUIV = {
     "˜": "~", "̃": "~", "∼": "~", "ˆ": "^", "̂": "^", "˙": ".", "̇": ".", "¨": "..", "̈": "..", "⃛": "...", "⃜": "....",
     "‵": "`", "ˋ": "`", "̀": "`", "´": "ˊ", "́": "ˊ", "ˇ": "ˇ", "̌": "ˇ", "˘": "˘", "̆": "˘", "⃗": "→", "⟶": "→",
     "〈": "<", "〉": ">", "〈": "<", "〉": ">", "⟨": "<", "⟩": ">", "ʼ": "`",
+    # circle-like characters in a superscript become the degree sign (canonicalize_mo_text: "circle-like objects -> degree")
+    "\u00ba": "°", "\u2092": "°", "\u20d8": "°", "\u2218": "°",
 }
 _DASH_TOKEN = re.compile(r"^-{2,4}$")
 
